@@ -5,7 +5,7 @@
 From Irismod Require Import Service.Check.
 From Irismod Require Import Service.Model Service.Proofs Service.ProofsHist Service.ProofsEscrow
   Service.ProofsSched Service.ProofsBatch Service.ProofsLiab Service.ProofsTally Service.ProofsLive
-  Service.ProofsModule Service.ProofsFresh Service.ProofsCallback Service.ProofsSchedule Service.ProofsModuleHist Service.ProofsOutcome Service.ProofsCheck.
+  Service.ProofsModule Service.ProofsFresh Service.ProofsCallback Service.ProofsSchedule Service.ProofsModuleHist Service.ProofsOutcome Service.ProofsCheck Service.ProofsTrack.
 
 (** Over EVERY history (any list of steps: messages of any kind and content, block ends,
     rate changes, transfers, module calls) from any initial height, time and ledger: the
@@ -346,6 +346,32 @@ Theorem model_passes_C08_clause_3 :
     holds_C08 seen fired tr sc (obs_of univ pcode pnc pcb s) st (obs_step univ c s st) <> 3.
 Proof. exact model_passes_C08_clause_3_lemma. Qed.
 Print Assumptions model_passes_C08_clause_3.
+
+(** clause 4 — "contexts follow their schedule", as the checker states it with its own tracker [tr]
+    (per context: last batch number, the height it started at, "running and untouched since") and
+    schedule [sc] (per context: the height at which the expiry handler scheduled the next batch):
+    a repeated, running, untouched context starts batch n+1 exactly [frequency] after batch n —
+    not at any other height, and at that height it does start it (or is paused for lack of funds)
+    while below its total; and no batch starts before the scheduled height, whatever pause / start
+    did in between.  Along the model's OWN trace of any history (distinct hashes, no end-block
+    with a negative time increment), [model_ts] being the checker's two accumulators as
+    [check_from] computes them: [holds_C08] never answers 4.  ANY configuration (module-served
+    services included).  From new invariants of Service/ProofsTrack.v, all proved over every
+    history: [TI] (a tracker entry (n, h0, true) of a stored repeated context with batch n means:
+    it is RUNNING, and either the expiry of batch n is registered at h0 + timeout, or batch n+1 is
+    scheduled at h0 + frequency), [SI] (a schedule entry is the new-batch marker of its context,
+    or is past), [FB] (frequency >= timeout for repeated contexts), and [eb_tracked]: the five
+    things one end-block can do to such a context. *)
+Theorem model_passes_C08_clause_4 :
+  forall c steps h0 t0 l0 univ,
+    NoDup (create_txhs steps) -> Forall good_step steps ->
+    forall pre st post, steps = pre ++ st :: post ->
+    forall seen fired pc pn pb,
+      let s := run c (init h0 t0 l0) pre in
+      let ts := model_ts univ c (init h0 t0 l0) ([], []) pre in
+      holds_C08 seen fired (fst ts) (snd ts) (obs_of univ pc pn pb s) st (obs_step univ c s st) <> 4.
+Proof. exact model_passes_C08_clause_4_lemma. Qed.
+Print Assumptions model_passes_C08_clause_4.
 
 (** [model_passes_check], PARTIAL, for [check_case_C08] itself (see [model_passes_clauses_C07],
     Props/C07.v, for the reading and the hypotheses): on the case the driver would print for the
